@@ -214,6 +214,9 @@ class Machine(object):
         self.stats = {'ops': 0, 'loads': 0, 'merges': 0}
         self.last_merge = None
         self.proc0 = None
+        self.garbled = None
+        self.malformed = None
+        self.malformed_applied = False
         self.dropped = {}
         self.version = 0
         self.data_version = 0
@@ -238,9 +241,32 @@ class Machine(object):
                 st = line.strip()
                 if line.startswith('    ') and not line.startswith('     ') \
                         and st.split(':')[0] in kinds:
+                    if self.garbled:
+                        lines.append('    %s: %s' % (st.split(':')[0],
+                                                     self.garbled))
                     continue
                 lines.append(line)
             files[path] = '\n'.join(lines)
+        # fault "malformed datum": one Cp row damaged
+        if self.malformed:
+            f, how = self.malformed
+            path = ROOT + '/' + f
+            lines = files[path].split('\n')
+            rows = [i for i, ln in enumerate(lines)
+                    if ln.strip().startswith('- [') and ',' in ln]
+            if rows:
+                i = rows[how[1] % len(rows)]
+                ln = lines[i]
+                head, rest = ln.split('[', 1)
+                a, b = rest.rstrip().rstrip(']').split(',', 1)
+                if how[0] == 'truncated':
+                    lines[i] = '%s[%s]' % (head, a)
+                elif how[0] == 'third':
+                    lines[i] = '%s[%s,%s, 1.0]' % (head, a, b)
+                else:
+                    lines[i] = '%s[%s, 2.0.1]' % (head, a)
+                files[path] = '\n'.join(lines)
+                self.malformed_applied = True
         # a scheme next to every file (sub-trees are loaded as roots too)
         dirs = set(os.path.dirname(p) for p in files)
         for d in dirs:
@@ -358,6 +384,13 @@ class Machine(object):
             return ['load-io-fault', root, out.get('exc')]
         if exp is None:
             self.probe('load_expected_to_fail_' + why[0])
+            if lib is None:
+                # the rejected load is retried: same data, same verdict
+                out2, lib2 = self.load(ROOT + '/' + root)
+                if lib2 is not None:
+                    self.viol('model-refinement', 'accepted-on-retry',
+                              'load-accepted-%s-on-retry' % why[0],
+                              {'root': root, 'why': why}, idx)
             if lib is not None:
                 self.viol('model-refinement', 'accepted-' + why[0],
                           'load-accepted-%s|%s' % (why[0], why[-1]
@@ -767,6 +800,35 @@ class Machine(object):
         self.probe('duplicate_spelling_injected')
         return ['dup_spelling', f, e['spelling'], alt]
 
+    def do_malformed_row(self, op, idx):
+        """Fault: one heat-capacity row is damaged (truncated to one entry,
+        a third entry, a garbled number).  The file must be rejected, also
+        on a retry; never loaded without that row."""
+        order = sg.file_order(self.aw, self.aw['root'])
+        cands = [f for f in order
+                 if any(e['Cp'] for e in self.aw['files'][f]['entries'])]
+        if not cands:
+            return ['malformed-skip']
+        f = cands[op['fi'] % len(cands)]
+        self.malformed = (f, [op['how'], op['ri']])
+        self.malformed_applied = False
+        self.rerender()
+        outs = []
+        if self.malformed_applied:
+            self.probe('malformed_row_' + op['how'])
+            for attempt in range(2):
+                out, lib = self.load(ROOT + '/' + self.aw['root'])
+                outs.append(out.get('exc'))
+                if lib is not None:
+                    self.viol('malformed-datum', 'accepted',
+                              'damaged-row-accepted|%s%s'
+                              % (op['how'], '|on-retry' if attempt else ''),
+                              {'file': f, 'how': op['how']}, idx)
+                    break
+        self.malformed = None
+        self.rerender()
+        return ['malformed_row', f, op['how'], outs]
+
     def do_set_fault(self, op, idx):
         order = sg.file_order(self.aw, self.aw['root'])
         f = order[op['fi'] % len(order)]
@@ -845,15 +907,25 @@ class Machine(object):
         if op.get('whole_block'):
             kinds = ['molar enthalpy', 'molar entropy', 'molar heat capacity']
         self.dropped = {f: kinds}
+        self.garbled = op.get('garble')     # unit string nobody can evaluate
         self.rerender()
-        self.probe('unit_dropped')
-        out, lib = self.load(ROOT + '/' + self.aw['root'])
-        if lib is not None:
-            self.viol('missing-unit', 'accepted',
-                      'value-without-any-unit-accepted|%s' % kind,
-                      {'file': f, 'kind': kind}, idx)
+        self.probe('unit_garbled' if self.garbled else 'unit_dropped')
+        outs = []
+        # the failing load is retried: a failure must not be "remembered"
+        # into an acceptance
+        for attempt in range(2):
+            out, lib = self.load(ROOT + '/' + self.aw['root'])
+            outs.append(out.get('exc'))
+            if lib is not None:
+                self.viol('missing-unit', 'accepted',
+                          'value-without-%s-unit-accepted|%s%s'
+                          % ('evaluable' if self.garbled else 'any', kind,
+                             '|on-retry' if attempt else ''),
+                          {'file': f, 'kind': kind, 'attempt': attempt}, idx)
+                break
         self.dropped = {}
-        return ['drop_unit', f, kinds, out.get('exc')]
+        self.garbled = None
+        return ['drop_unit', f, kinds, outs]
 
     # ------------------------------------------------------------- C18
     def do_mutate(self, op, idx):
@@ -889,6 +961,13 @@ class Machine(object):
             elif how == 'update_from_other':
                 other = L['obs'][keys[(op['ki'] + 1) % len(keys)]]['thermochem']
                 corr.update(other, True)
+            elif how == 'update_rejected':
+                # a merge that is (most likely) rejected: another group's
+                # data without overwrite.  Whatever it leaves behind is the
+                # object's state, and that is what must be written.
+                other = L['obs'][keys[(op['ki'] + 1 + op.get('ti', 0))
+                                      % len(keys)]]['thermochem']
+                corr.update(other, False)
         out, _ = libops.record(go)
         L['model'] = dict((g, _as_model(v)) for g, v in
                           obs_lib(L['obs']).items()
@@ -976,7 +1055,7 @@ def conflict_candidates(aw, f):
 
 
 MUTATIONS = ['del_H', 'del_S', 'set_range', 'del_Cp_point', 'del_Cp_all',
-             'update_from_other']
+             'update_from_other', 'update_rejected', 'update_rejected']
 
 
 sg_block_kinds = ('molar enthalpy', 'molar entropy', 'molar heat capacity',
@@ -1080,7 +1159,8 @@ def gen_spec(run_seed, prop):
             fault_kinds = rng.sample(['conflict', 'conflict', 'conflict',
                                       'dup_spelling', 'ENOENT',
                                       'EACCES', 'EIO', 'EIO_read',
-                                      'transient'], 1 if cfg < 0.9 else 2)
+                                      'transient', 'malformed_row'],
+                                     1 if cfg < 0.9 else 2)
             fault_kinds = sorted(set(fault_kinds))
         ops.append({'op': 'load', 'as': 'L0'})
         length = rng.randrange(3, 26)
@@ -1173,6 +1253,16 @@ def gen_spec(run_seed, prop):
                                     'overwrite': True})
                         ops.append({'op': 'repeat'})
                     nlib += 3
+                elif k == 'malformed_row':
+                    ops.append({'op': 'malformed_row',
+                                'fi': rng.randrange(20),
+                                'ri': rng.randrange(50),
+                                'how': rng.choice(['truncated', 'third',
+                                                   'garbled'])})
+                    ops.append({'op': 'load', 'as': 'L%d' % nlib})
+                    ops.append({'op': 'compare', 'a': 'L0',
+                                'b': 'L%d' % nlib})
+                    nlib += 1
                 elif k == 'dup_spelling':
                     ops.append({'op': 'dup_spelling',
                                 'ci': rng.randrange(1000)})
@@ -1222,8 +1312,18 @@ def gen_spec(run_seed, prop):
             fault_kinds = ['missing-unit']
             vi = rng.randrange(nv)
             ops.append({'op': 'present', 'variant': vi})
+            # first a good load of this presentation (loaders, contexts and
+            # caches have seen valid units), then the faulty file
+            ops.append({'op': 'load', 'as': 'G'})
             ops.append({'op': 'drop_unit', 'ci': rng.randrange(1000),
-                        'whole_block': rng.random() < 0.3})
+                        'whole_block': rng.random() < 0.3,
+                        'garble': rng.choice([None, None, 'kJ/mool',
+                                              'furlongs', 'kcal//mol',
+                                              'J/(mol'])})
+            # and the good file again afterwards
+            ops.append({'op': 'present', 'variant': vi})
+            ops.append({'op': 'load', 'as': 'G2'})
+            ops.append({'op': 'props_equal', 'a': 'G', 'b': 'G2'})
         return {'property': prop, 'run_seed': run_seed, 'aw': aw,
                 'pres': variants[0], 'variants': variants, 'ops': ops,
                 'config': {'faults': fault_kinds, 'zero': zero,
